@@ -425,6 +425,38 @@ def c_get_assign_names(P):
     P.cover("get_assign_names")
 
 
+@contract("C01", "nodes.get_instance_names.self_attributes_only", [ASG + "get_instance_names"], floor=3, replay="replay_visitor")
+def c_get_instance_names(P):
+    """In `__init__`, an assignment binds an instance attribute for each target `self.<name>`: the attribute is named by everything after `self.` (so a
+    deeper chain `self.a.b` keeps its dot and is not taken for an attribute `b` of the instance -- the handler skips dotted names), other targets bind nothing."""
+    P.expects["clause"] = "handle_attribute"
+    NAMEF = z3.Function("TARGET_TEXT", IntS, StrS)
+    names = sym_seq(P, "target_names", lambda i: SStr(NAMEF(zint(i))))
+    for mod in ("_griffe.agents.nodes.assignments",):
+        P.opaque_hooks[mod + ":get_names"] = lambda P_, a, k: names
+    node = SObj("ast.Assign", {}, ident=z3.Int("assign_id"), frozen=True)
+    kind, res = outcome(P, lambda: call(P, ASG + "get_instance_names", node))
+    P.prove("never_raises", kind == "ok", exc=(P.resolve_cls(res) if kind == "raise" else ""))
+    if kind != "ok":
+        return
+    from pyvc import loops as _loops
+    if not isinstance(res, _loops.SFilter):
+        raise Unsupported("expected a filter over the names of the targets")
+    i = z3.Int("some_target")
+    P.assume(z3.And(i >= 0, i < zint(names.len)))
+    is_self_attr = z3.PrefixOf(z3.StringVal("self."), NAMEF(i))
+    if P.branch(is_self_attr):
+        keep, val = res.pred_elt(mk_int(i))
+        P.prove("a_target_self_dot_name_is_kept", zbool(keep))
+        P.prove("named_by_everything_after_self_dot", z3.Concat(z3.StringVal("self."), zstr(val)) == NAMEF(i))
+    else:
+        # the element expression is only evaluated for kept targets (it may not even be defined for the others)
+        k2, r2 = outcome(P, lambda: res.pred_elt(mk_int(i)))
+        if k2 == "ok":
+            P.prove("any_other_target_binds_no_instance_attribute", z3.Not(zbool(r2[0])))
+    P.cover("get_instance_names")
+
+
 # =========================================================================== docstrings: text and line span agree with the source
 GD = "_griffe.agents.nodes.docstrings:get_docstring"
 
